@@ -106,7 +106,7 @@ def scenario_for(seed):
         o.pop("spell", None)
         o.pop("sf_raw", None)
         if o["op"] == "create" and rnd.random() < 0.3:
-            o["i"] = list(o.get("i", [])) + [rnd.choice(["media", "cache", "*.tmp", "Clips", "with space", "plain", "a"])]
+            o["i"] = list(o.get("i", [])) + [rnd.choice(["media", "cache", "*.tmp", "Clips", "with space", "plain", "a", "/tmp", "/home", "/media", "/tmp/"])]
     # names that differ only in case, and names whose order differs between code-point and locale/case-folded sorting
     for k, v in {"Case.txt": "upper", "case.txt": "lower", "Dd/x.txt": "x", "dd/y.txt": "y", "Zeta.txt": "Z", "alpha.txt": "a", "_under.txt": "u", "Ébène.txt": "e"}.items():
         if k.split("/")[0] not in sc["tree"] and k.split("/")[0] + "/" not in sc["tree"]:
